@@ -215,6 +215,7 @@ func runCheck(id, tier string) (code int) {
 			code = 1
 		}
 	}()
+	theTier = tier
 	type plat struct{ os, arch string }
 	plats := []plat{{"linux", "amd64"}}
 	if tier == "thorough" {
